@@ -1,4 +1,6 @@
 #!/bin/sh
-# run every quick check on the current tree (4 at a time); summary line per property
+# run every check on the current tree (4 at a time), TIER=quick|thorough; summary line per property; logs in /tmp/wt/runall_<tier>_Cxx.log
 cd /verif
-ls contracts | grep -E '^C[0-9]+\.py$' | sed 's/\.py//' | xargs -P 4 -I{} sh -c './check {} --tier ${TIER:-quick} > /tmp/runall_{}.log 2>&1; echo "{} exit=$? $(grep -c "^VIOLATION" /tmp/runall_{}.log) viol $(grep -c "^KNOWN-FINDING" /tmp/runall_{}.log) known | $(tail -1 /tmp/runall_{}.log | cut -c1-150)"' | sort
+mkdir -p /tmp/wt
+T=${TIER:-quick}
+ls contracts | grep -E '^C[0-9]+\.py$' | sed 's/\.py//' | xargs -P 4 -I{} sh -c "./check {} --tier $T > /tmp/wt/runall_${T}_{}.log 2>&1; echo \"{} exit=\$? \$(grep -c '^VIOLATION' /tmp/wt/runall_${T}_{}.log) viol \$(grep -c '^KNOWN-FINDING' /tmp/wt/runall_${T}_{}.log) known | \$(tail -1 /tmp/wt/runall_${T}_{}.log | cut -c1-150)\"" | sort
